@@ -1,0 +1,61 @@
+//go:build verif
+
+// Contracts for package responder, read by the verification-condition generator
+// in /verif (govc).  Comment-only.
+//
+// Both responders are verified against the observable behaviour the proxy
+// relies on when it talks to the Responder interface: SetHeader replaces,
+// AddHeader appends, SetHeaders copies every value of every key in order and
+// never adopts the caller's map.
+
+package responder
+
+// Header maps handed to SetHeaders come from net/http: keys are canonical.
+//@ spec func specCanonKeys(h any) bool = forall k key :: in(h, k) ==> canonkey(k) == k
+
+//@ props C08 C10 C01 C16
+//@ func RawHTTPResponder.SetHeader
+//@   nopanic
+//@   requires c.response != nil && c.response.Header != nil
+//@   ensures [C08] len(c.response.Header[canonkeyof(name)]) == 1 && sid(c.response.Header[canonkeyof(name)][0]) == sid(value)
+//@   ensures [C08] forall k key :: k != canonkeyof(name) ==> in(c.response.Header, k) == old(in(c.response.Header, k))
+
+//@ props C08 C10 C01 C16
+//@ func RawHTTPResponder.SetHeaders
+//@   nopanic
+//@   requires c.response != nil && c.response.Header != nil && headers != nil && c.response.Header != headers && specCanonKeys(headers)
+//@   requires forall k key :: in(headers, k) ==> len(headers[k]) < 1000000
+//@   ensures [C01] c.response.Header == old(c.response.Header) && c.response.Header != headers
+//@   ensures [C08] forall k key :: in(headers, k) ==> len(c.response.Header[k]) == len(headers[k])
+//@   ensures [C08] forall k key, i int :: in(headers, k) && 0 <= i && i < len(headers[k]) ==> sid(c.response.Header[k][i]) == sid(headers[k][i])
+//@   ensures [C01] forall k key :: in(headers, k) == old(in(headers, k)) && len(headers[k]) == old(len(headers[k]))
+//@   loop 1 invariant c.response != nil && c.response.Header == old(c.response.Header) && c.response.Header != headers && c.response.Header != nil
+//@   loop 1 invariant forall k key :: in(headers, k) == old(in(headers, k)) && len(headers[k]) == old(len(headers[k])) && (forall i int :: 0 <= i && i < len(headers[k]) ==> sid(headers[k][i]) == old(sid(headers[k][i])))
+//@   loop 1 invariant forall k key :: visited[k] && in(headers, k) ==> len(c.response.Header[k]) == len(headers[k])
+//@   loop 1 invariant forall k key, i int :: visited[k] && in(headers, k) && 0 <= i && i < len(headers[k]) ==> sid(c.response.Header[k][i]) == sid(headers[k][i])
+//@   loop 2 invariant c.response != nil && c.response.Header == old(c.response.Header) && c.response.Header != headers && c.response.Header != nil
+//@   loop 2 invariant rangeidx <= len(values) && (rangeidx > 0 ==> in(c.response.Header, key)) && len(c.response.Header[key]) == rangeidx
+//@   loop 2 invariant forall i int :: 0 <= i && i < rangeidx ==> sid(c.response.Header[key][i]) == sid(values[i])
+//@   loop 2 invariant forall k key :: in(headers, k) == old(in(headers, k)) && len(headers[k]) == old(len(headers[k])) && (forall i int :: 0 <= i && i < len(headers[k]) ==> sid(headers[k][i]) == old(sid(headers[k][i])))
+//@   loop 2 invariant forall k key :: k != keyid(key) && visited[k] && in(headers, k) ==> len(c.response.Header[k]) == len(headers[k])
+//@   loop 2 invariant forall k key, i int :: k != keyid(key) && visited[k] && in(headers, k) && 0 <= i && i < len(headers[k]) ==> sid(c.response.Header[k][i]) == sid(headers[k][i])
+
+//@ props C08 C10 C01 C16
+//@ func HTTPResponder.SetHeaders
+//@   nopanic
+//@   requires c.writer != nil && headers != nil && rwheader(c.writer) != headers && specCanonKeys(headers)
+//@   requires forall k key :: in(headers, k) ==> len(headers[k]) < 1000000
+//@   ensures [C01] rwheader(c.writer) != headers
+//@   ensures [C08] forall k key :: in(headers, k) ==> len(rwheader(c.writer)[k]) == len(headers[k])
+//@   ensures [C08] forall k key, i int :: in(headers, k) && 0 <= i && i < len(headers[k]) ==> sid(rwheader(c.writer)[k][i]) == sid(headers[k][i])
+//@   ensures [C01] forall k key :: in(headers, k) == old(in(headers, k)) && len(headers[k]) == old(len(headers[k]))
+//@   loop 1 invariant c.writer != nil && rwheader(c.writer) != headers
+//@   loop 1 invariant forall k key :: in(headers, k) == old(in(headers, k)) && len(headers[k]) == old(len(headers[k])) && (forall i int :: 0 <= i && i < len(headers[k]) ==> sid(headers[k][i]) == old(sid(headers[k][i])))
+//@   loop 1 invariant forall k key :: visited[k] && in(headers, k) ==> len(rwheader(c.writer)[k]) == len(headers[k])
+//@   loop 1 invariant forall k key, i int :: visited[k] && in(headers, k) && 0 <= i && i < len(headers[k]) ==> sid(rwheader(c.writer)[k][i]) == sid(headers[k][i])
+//@   loop 2 invariant c.writer != nil && rwheader(c.writer) != headers
+//@   loop 2 invariant rangeidx <= len(values) && (rangeidx > 0 ==> in(rwheader(c.writer), key)) && len(rwheader(c.writer)[key]) == rangeidx
+//@   loop 2 invariant forall i int :: 0 <= i && i < rangeidx ==> sid(rwheader(c.writer)[key][i]) == sid(values[i])
+//@   loop 2 invariant forall k key :: in(headers, k) == old(in(headers, k)) && len(headers[k]) == old(len(headers[k])) && (forall i int :: 0 <= i && i < len(headers[k]) ==> sid(headers[k][i]) == old(sid(headers[k][i])))
+//@   loop 2 invariant forall k key :: k != keyid(key) && visited[k] && in(headers, k) ==> len(rwheader(c.writer)[k]) == len(headers[k])
+//@   loop 2 invariant forall k key, i int :: k != keyid(key) && visited[k] && in(headers, k) && 0 <= i && i < len(headers[k]) ==> sid(rwheader(c.writer)[k][i]) == sid(headers[k][i])
